@@ -745,3 +745,177 @@ func (f *Func) aliasesOf(obj types.Object) map[types.Object]bool {
 	}
 	return set
 }
+
+// binaryCmp2 is binaryCmp for an arbitrary node (false for non-expressions).
+func binaryCmp2(n ast.Node) (x, y ast.Expr, op token.Token, ok bool) {
+	e, isE := n.(ast.Expr)
+	if !isE {
+		return nil, nil, token.ILLEGAL, false
+	}
+	return binaryCmp(e)
+}
+
+// ---- linear comparisons --------------------------------------------------------------------
+
+// linIneq is the normal form of an integer comparison:  Σ coef·term + K  Op  0  with Op one of <= (token.LEQ),
+// == and !=. Strict and mirrored comparisons are brought to <= over the integers (a < b is a - b + 1 <= 0).
+type linIneq struct {
+	T  map[string]int64
+	K  int64
+	Op token.Token
+}
+
+// linExpand reduces an integer expression built from +, -, constants and opaque terms to coefficient form. Terms are
+// keyed independently of local names: parameters by type, fields by owner type, len(x) by x's key; a local that is
+// defined exactly once from such an expression stands for its definition.
+func (f *Func) linExpand(e ast.Expr, depth int) (map[string]int64, int64, bool) {
+	e = ast.Unparen(e)
+	if v, ok := f.ConstInt(e); ok {
+		return map[string]int64{}, v, true
+	}
+	switch x := e.(type) {
+	case *ast.BinaryExpr:
+		if x.Op != token.ADD && x.Op != token.SUB {
+			return nil, 0, false
+		}
+		a, ca, ok1 := f.linExpand(x.X, depth)
+		b, cb, ok2 := f.linExpand(x.Y, depth)
+		if !ok1 || !ok2 {
+			return nil, 0, false
+		}
+		sign := int64(1)
+		if x.Op == token.SUB {
+			sign = -1
+		}
+		for k, v := range b {
+			a[k] += sign * v
+		}
+		return a, ca + sign*cb, true
+	case *ast.Ident:
+		v, ok := f.ObjOf(x).(*types.Var)
+		if !ok {
+			return nil, 0, false
+		}
+		for _, p := range f.Root().Params() {
+			if p == v {
+				return map[string]int64{"param(" + v.Type().String() + ")": 1}, 0, true
+			}
+		}
+		if depth < 4 && !v.IsField() && !f.Root().addressTaken(v) {
+			var def ast.Expr
+			n := 0
+			for _, w := range Writes(f.Root().Body, true) {
+				if f.ObjOf(w.LHS) == types.Object(v) {
+					n++
+					def = w.RHS
+				}
+			}
+			if n == 1 && def != nil && pureCond(def) {
+				if t, k, ok := f.linExpand(def, depth+1); ok {
+					return t, k, true
+				}
+			}
+		}
+		return map[string]int64{"local:" + v.Name(): 1}, 0, true
+	case *ast.SelectorExpr:
+		return map[string]int64{f.FieldPath(x): 1}, 0, true
+	case *ast.CallExpr:
+		if f.BuiltinName(x) == "len" && len(x.Args) == 1 {
+			return map[string]int64{"len(" + f.FieldPath(x.Args[0]) + ")": 1}, 0, true
+		}
+		return map[string]int64{f.FieldPath(x): 1}, 0, true
+	}
+	return nil, 0, false
+}
+
+// linAtom: the normal form of a comparison atom (with its polarity).
+func (f *Func) linAtom(a Atom) (linIneq, bool) {
+	x, y, op, ok := binaryCmp(a.E)
+	if !ok {
+		return linIneq{}, false
+	}
+	if !a.Val {
+		switch op {
+		case token.EQL:
+			op = token.NEQ
+		case token.NEQ:
+			op = token.EQL
+		case token.LSS:
+			op = token.GEQ
+		case token.GEQ:
+			op = token.LSS
+		case token.GTR:
+			op = token.LEQ
+		case token.LEQ:
+			op = token.GTR
+		}
+	}
+	tx, kx, ok1 := f.linExpand(x, 0)
+	ty, ky, ok2 := f.linExpand(y, 0)
+	if !ok1 || !ok2 {
+		return linIneq{}, false
+	}
+	// L = x - y
+	for k, v := range ty {
+		tx[k] -= v
+	}
+	L := linIneq{T: tx, K: kx - ky}
+	neg := func() {
+		for k := range L.T {
+			L.T[k] = -L.T[k]
+		}
+		L.K = -L.K
+	}
+	switch op {
+	case token.LEQ:
+		L.Op = token.LEQ
+	case token.LSS:
+		L.Op = token.LEQ
+		L.K++
+	case token.GEQ:
+		neg()
+		L.Op = token.LEQ
+	case token.GTR:
+		neg()
+		L.K++
+		L.Op = token.LEQ
+	default:
+		L.Op = op
+	}
+	for k, v := range L.T {
+		if v == 0 {
+			delete(L.T, k)
+		}
+	}
+	return L, true
+}
+
+// is: the inequality has exactly these coefficients (for == and != also their negation).
+func (l linIneq) is(op token.Token, k int64, terms map[string]int64) bool {
+	if l.Op != op {
+		return false
+	}
+	same := func(sign int64) bool {
+		if l.K != sign*k || len(l.T) != len(terms) {
+			return false
+		}
+		for t, v := range terms {
+			if l.T[t] != sign*v {
+				return false
+			}
+		}
+		return true
+	}
+	if same(1) {
+		return true
+	}
+	return op != token.LEQ && same(-1)
+}
+
+// hasLinAtom: one of the atoms has the given normal form.
+func (f *Func) hasLinAtom(atoms []Atom, op token.Token, k int64, terms map[string]int64) bool {
+	return hasAtom(atoms, func(a Atom) bool {
+		l, ok := f.linAtom(a)
+		return ok && l.is(op, k, terms)
+	})
+}
